@@ -119,7 +119,7 @@ def item_json(item):
 
 
 def setup(case):
-    cube = E.build_cube(case["shape"], case["fam"], case["wseed"], case["ecs"], with_shape=(case["wseed"] % 4 != 0))
+    cube = E.build_cube(case["shape"], case["fam"], case["wseed"], case["ecs"], with_shape={0: False, 1: "larger", 2: "smaller"}.get(case["wseed"] % 8, True))
     nd = cube.data.ndim
     which = case["which"]
     if which == "wcs":
@@ -377,6 +377,9 @@ def run(case):
         lock = C.world_lockstep(r, [cube], rng, exact, limit=6)
         if lock:
             fails.append(f"{form}: {lock}")
+        lock = ec_lockstep(r, cube, exp_item)
+        if lock:
+            fails.append(f"{form}: {lock}")
     if len({(o[0], tuple(np.asarray(o[1].data).shape) if o[0] == "ok" else None) for o in outcomes.values()}) > 1 and not off_array:
         fails.append(f"crop and crop_by_values disagree on equivalent points: { {k: (v[0], v[2]) for k, v in outcomes.items()} }")
     res["obs"] = {k: {"status": v[0], "item": v[2]} for k, v in outcomes.items()}
@@ -392,6 +395,37 @@ def run(case):
     if fails:
         res["oracle"] = "; ".join(fails[:2])
     return res
+
+
+def ec_lockstep(r, cube, exp_item):
+    """the result equals cube[box] for its extra coordinates too: every extra coordinate that still has an axis sits on
+    the renumbered axis and reports, at the result's corner elements, the source's values at the corresponding elements
+    (read through each cube's own extra-coords WCS and mapping, independently of how the library sliced them)"""
+    if cube.extra_coords.is_empty:
+        return None
+    nd = cube.data.ndim
+    kept = [a for a in range(nd) if isinstance(exp_item[a], slice)]
+    starts = [(it.start or 0) if isinstance(it, slice) else int(it) for it in exp_item]
+    rs = list(np.asarray(r.data).shape)
+    if len(rs) != len(kept) or 0 in rs:
+        return None
+    els = [[0] * len(kept), [n - 1 for n in rs]]
+    src_els = []
+    for e in els:
+        full = list(starts)
+        for j, a in enumerate(kept):
+            full[a] = starts[a] + e[j]
+        src_els.append(full)
+    try:
+        got, names = E.ec_values(r, els)
+        want, _ = E.ec_values(cube, src_els)
+    except Exception as e:
+        return f"extra coords of the result cannot be evaluated: {type(e).__name__}: {str(e)[:100]}"
+    for nm in names:
+        if nm in want and not np.allclose(got[nm], want[nm], rtol=1e-9, atol=1e-9, equal_nan=True):
+            return (f"extra coordinate {nm} of the result is {got[nm].tolist()} at its corner elements, the source has "
+                    f"{want[nm].tolist()} at the corresponding elements {src_els}")
+    return None
 
 
 def _cmp(o, m, label):
